@@ -45,7 +45,7 @@ def gen_pair(rng):
     plan_ = [(n, rng.choice(names)) for n in names]
     funcs = {}
     kw = dict(profile="py", allow_end=False, advance_time=False, phase_plan=plan_, funcs=funcs,
-              readonly_state=["<state>in"], max_ops=rng.choice([4, 6, 8]))
+              readonly_state=["<state>in", "<state>scale_<func>f"], max_ops=rng.choice([4, 6, 8]))
     # sometimes one method's ordinary temporaries are named like the other's loop counters
     cross = rng.random() < 0.35
     kwa = dict(kw, counters=["c1", "c2", "c3"], extra_locals=["i", "j", "ii"]) if cross else kw
